@@ -324,3 +324,7 @@ def run(ctx):
     ctx.guarded(r, C11.r2b_unreachable_ranges)
     r = ctx.rule("R5", "paired guards agree: sin / cos early exits (whole period with >=), mix's single-bit-pattern tests, atan2's branch cut", 5)
     ctx.guarded(r, r5_sibling_guards)
+    from .. import wgslrules as WR
+
+    r = ctx.rule("R6", "the GPU (WGSL) interval operations are enclosures: bound selection, corner products / quotients, domain guards, choices", 25)
+    ctx.guarded(r, WR.r_interval_ops)
